@@ -78,4 +78,43 @@ def IdxLe (a b : Market) : Prop :=
   a.fapsL.long ≤ b.fapsL.long ∧ a.fapsL.short ≤ b.fapsL.short ∧ a.fapsS.long ≤ b.fapsS.long ∧ a.fapsS.short ≤ b.fapsS.short ∧
   a.cfapsL.long ≤ b.cfapsL.long ∧ a.cfapsL.short ≤ b.cfapsL.short ∧ a.cfapsS.long ≤ b.cfapsS.long ∧ a.cfapsS.short ≤ b.cfapsS.short
 
+/-! ### token flows of whole-market histories (C08) -/
+
+/-- as `wMarketOp`, with the tokens that enter / leave the market: a deposit brings its two
+amounts, a withdrawal pays its two outputs, a swap takes the input amount and pays the output. -/
+def wMarketOpF (W U : Nat) (rc : RateCfg) (m : Market) : WOp → Option (Market × Flow)
+  | .deposit l sh pr =>
+    match perpInOf W U m rc pr with
+    | none => none
+    | some pin => match deposit W U m ⟨l, sh, pr⟩ pin with
+      | (m', .ok _) => some (m', { inn := fun t => if t then l else sh })
+      | (_, .error _) => none
+  | .withdraw a pr =>
+    match perpInOf W U m rc pr with
+    | none => none
+    | some pin => match withdraw W U m ⟨a, pr⟩ pin with
+      | (m', .ok r) => some (m', { out := fun t => if t then r.longOut else r.shortOut })
+      | (_, .error _) => none
+  | .swap il a pr =>
+    match swap W U m ⟨il, a, pr⟩ with
+    | .ok (m', c) => some (m', { inn := fun t => tokAmt il t a, out := fun t => tokAmt (!il) t c.tokenOut })
+    | .error _ => none
+  | o => (wMarketOp W U rc m o).map (fun m' => (m', {}))
+
+/-- one operation of a whole-market history with its token flows. -/
+def PSys.wstepF (W U : Nat) (c : PerpCfg) (rc : RateCfg) (s : PSys) : WOp → PSys × Flow
+  | .openPos il cl => s.stepF W U c (.openPos il cl)
+  | .inc i coll size pr => s.stepF W U c (.inc i coll size pr)
+  | .dec i size wd fl pr => s.stepF W U c (.dec i size wd fl pr)
+  | o => match wMarketOpF W U rc s.m o with
+    | some (m', f) => ({ s with m := m' }, f)
+    | none => (s, {})
+
+def PSys.wrunF (W U : Nat) (c : PerpCfg) (rc : RateCfg) (s : PSys) : List WOp → PSys × Flow
+  | [] => (s, {})
+  | o :: os =>
+    let (s1, f1) := s.wstepF W U c rc o
+    let (s2, f2) := PSys.wrunF W U c rc s1 os
+    (s2, f1.add f2)
+
 end Gmx.Perp
